@@ -8,6 +8,7 @@ import (
 	"io/ioutil"
 	"os"
 	"path/filepath"
+	"runtime/debug"
 	"sort"
 	"strconv"
 	"strings"
@@ -79,6 +80,7 @@ func NewRun(prop, tier string) *Run {
 	r := &Run{Prop: prop, Tier: tier, Seed: seed, Level: "model_checking", start: time.Now(),
 		viol: map[string]*Violation{}, extra: map[string]interface{}{}, counters: map[string]*int64{},
 		known: map[string]Finding{}, exhaustive: true}
+	current = r
 	b, err := ioutil.ReadFile(filepath.Join(Root(), "known_findings.json"))
 	if err == nil {
 		var fs []Finding
@@ -312,12 +314,76 @@ func Parallel(nshards int, fn func(shard, nshards int)) {
 				if s >= nshards {
 					return
 				}
-				fn(s, nshards)
+				runShard(fn, s, nshards)
 			}
 		}()
 	}
 	wg.Wait()
 }
+
+// runShard is the safety net under the checks' own guards: a panic raised inside engine code (the innermost
+// non-runtime frame belongs to the repository's internal packages) is a violation of the property under check, not an
+// infrastructure error; the rest of that shard is lost, so the run is marked non-exhaustive. Any other panic is a bug
+// of the harness and is re-raised.
+func runShard(fn func(shard, nshards int), s, n int) {
+	defer func() {
+		if e := recover(); e != nil {
+			st := string(debug.Stack())
+			site := panicOrigin(st)
+			if current == nil || !strings.Contains(site, "FrankyGo/internal/") {
+				panic(e)
+			}
+			kind := "other"
+			msg := fmt.Sprint(e)
+			switch {
+			case strings.Contains(msg, "index out of range"):
+				kind = "index-out-of-range"
+			case strings.Contains(msg, "nil pointer"):
+				kind = "nil-pointer"
+			}
+			if i := strings.LastIndex(site, "/"); i >= 0 {
+				site = site[i+1:]
+			}
+			if i := strings.Index(site, "("); i > 0 && strings.HasSuffix(site, ")") && !strings.Contains(site[:i], ".") {
+				site = site[:i]
+			}
+			current.Violate("engine-panic:"+kind+":"+site, "engine code panicked: "+msg, map[string]interface{}{"kind": "panic", "shard": s, "shards": n, "stack": trimLines(st, 24)})
+			current.Cap("a shard was abandoned after an engine panic")
+		}
+	}()
+	fn(s, n)
+}
+
+// panicOrigin returns the function name of the innermost non-runtime frame below the panic call in a stack dump.
+func panicOrigin(st string) string {
+	lines := strings.Split(st, "\n")
+	seen := false
+	for _, l := range lines {
+		if strings.HasPrefix(l, "panic(") {
+			seen = true
+			continue
+		}
+		if !seen || strings.HasPrefix(l, "\t") || strings.HasPrefix(l, "runtime.") || l == "" {
+			continue
+		}
+		if i := strings.LastIndex(l, "("); i > 0 {
+			return l[:i]
+		}
+		return l
+	}
+	return ""
+}
+
+func trimLines(s string, n int) string {
+	lines := strings.Split(s, "\n")
+	if len(lines) > n {
+		lines = lines[:n]
+	}
+	return strings.Join(lines, "\n")
+}
+
+// current is the run of this process (set by NewRun) - used by the panic safety net of Parallel
+var current *Run
 
 // Guard runs f and converts a panic into an error string (with the panic value).
 func Guard(f func()) (msg string, panicked bool) {
